@@ -177,8 +177,15 @@ func (g *gen) addNode(kind string) int {
 	return len(g.d.Nodes) - 1
 }
 func (g *gen) addParam() int {
-	if g.r.Bool() {
+	switch g.r.Intn(8) {
+	case 0, 1, 2:
 		return g.addNode("pval")
+	case 3:
+		return g.addNode("pslice")
+	case 4:
+		return g.addNode("pmap")
+	case 5:
+		return g.addNode("pstruct")
 	}
 	return g.addNode("vnode")
 }
@@ -319,9 +326,15 @@ func genHist(r *hx.Rng, thorough bool) histDesc {
 		case x < 52:
 			p := hx.Pick(r, ps)
 			if r.Chance(1, 6) {
-				g.emit(opDesc{Op: "set", N: p, V: g.m.val[p]}) // same value: still an update
+				g.emit(opDesc{Op: "set", N: p, V: g.m.raw[p]}) // same value: still an update
 			} else {
 				g.set(p)
+			}
+		case x < 56:
+			// an update message that is rejected after a valid prefix: nothing may change
+			p := hx.Pick(r, ps)
+			if g.d.Nodes[p].Kind != "vnode" {
+				g.emit(opDesc{Op: "badset", N: p, V: r.Intn(1000)})
 			}
 		case x < 72:
 			n := hx.Pick(r, ss)
@@ -551,6 +564,21 @@ func fixedCases() []histDesc {
 			{Op: "connect", N: 4, Port: "Any", Src: 6}, {Op: "read", N: 5}, {Op: "set", N: 1, V: 22}, {Op: "read", N: 5}, {Op: "read", N: 5},
 			{Op: "disconnect", N: 4, Port: "One"}, {Op: "connect", N: 4, Port: "One", Src: 6}, {Op: "set", N: 0, V: 21}, {Op: "read", N: 5},
 			{Op: "set", N: 1, V: 32}, {Op: "read", N: 4}, {Op: "read", N: 5}, {Op: "read", N: 5}}
+		out = append(out, d)
+	}
+	// compound parameters (slice / map / struct decoded element-wise by encoding/json): consumers execute,
+	// then an update that is REJECTED after a valid prefix; the consumers must still serve (and, after a
+	// forced re-execution through another input, recompute from) the OLD parameter value
+	{
+		d := histDesc{Shape: "fixed-rejected-update", Nodes: []nodeDesc{{Kind: "pslice", Init: 3}, {Kind: "pmap", Init: 4}, {Kind: "pstruct", Init: 5}, {Kind: "pval", Init: 6},
+			{Kind: "quad", Salt: 59}, {Kind: "chain", Salt: 61}}}
+		d.Ops = []opDesc{{Op: "connect", N: 4, Port: "D", Src: 0}, {Op: "connect", N: 4, Port: "A", Src: 1}, {Op: "connect", N: 4, Port: "C", Src: 2},
+			{Op: "connect", N: 4, Port: "B", Src: 3}, {Op: "connect", N: 5, Port: "In", Src: 4}, {Op: "read", N: 5},
+			{Op: "set", N: 0, V: 10}, {Op: "set", N: 1, V: 20}, {Op: "set", N: 2, V: 30}, {Op: "read", N: 5}, {Op: "read", N: 5},
+			{Op: "badset", N: 0, V: 100}, {Op: "read", N: 0}, {Op: "read", N: 5}, {Op: "set", N: 3, V: 7}, {Op: "read", N: 5},
+			{Op: "badset", N: 1, V: 200}, {Op: "read", N: 1}, {Op: "read", N: 5}, {Op: "set", N: 3, V: 8}, {Op: "read", N: 5},
+			{Op: "badset", N: 2, V: 300}, {Op: "read", N: 2}, {Op: "read", N: 5}, {Op: "set", N: 3, V: 9}, {Op: "read", N: 5},
+			{Op: "badset", N: 3, V: 1}, {Op: "read", N: 5}, {Op: "set", N: 0, V: 11}, {Op: "read", N: 5}, {Op: "badset", N: 0, V: 400}, {Op: "read", N: 4}, {Op: "read", N: 5}}
 		out = append(out, d)
 	}
 	return out
